@@ -235,3 +235,78 @@ pub fn c05_follower_purge_guard() {
     kani::cover!(!ok && li.index < commit, "purge refused by monotonicity");
     std::mem::forget(f);
 }
+
+/// C34: the snapshot section -- an accepted configuration retains at least one log entry (and the other numeric limits
+/// are non-zero).  All numeric fields symbolic at full width; the directory probe of `validate_directory` is stubbed.
+#[kani::proof]
+#[kani::stub(std_catch_unwind, cu)]
+#[kani::stub(std::fmt::format, stub_format)]
+#[kani::stub(std::path::Path::exists, stub_path_exists)]
+#[kani::stub(std::fs::write, stub_fs_write)]
+#[kani::stub(std::fs::remove_file, stub_fs_remove_file)]
+#[kani::stub(std::fs::create_dir_all, stub_fs_create_dir_all)]
+#[kani::unwind(2)]
+pub fn c34_snapshot_retention() {
+    let mut s = SnapshotConfig::default();
+    s.max_log_entries_before_snapshot = kani::any();
+    s.cleanup_retain_count = kani::any();
+    s.chunk_size = kani::any();
+    s.retained_log_entries = kani::any();
+    s.sender_yield_every_n_chunks = kani::any();
+    s.receiver_yield_every_n_chunks = kani::any();
+    s.push_queue_size = kani::any();
+    s.receive_chunk_timeout_in_sec = kani::any();
+    s.snapshot_push_max_retry = kani::any();
+    let r = config::verif_hooks_config::snapshot_validate(&s);
+    kani::cover!(r.is_ok(), "snapshot section accepted");
+    kani::cover!(r.is_err() && s.retained_log_entries == 0 && s.chunk_size > 0 && s.cleanup_retain_count > 0 && s.max_log_entries_before_snapshot > 0, "rejected only because nothing would be retained");
+    if r.is_ok() {
+        assert!(s.retained_log_entries >= 1, "C34:accepted_snapshot_config_retains_no_log_entry");
+        assert!(s.max_log_entries_before_snapshot > 0 && s.cleanup_retain_count > 0 && s.chunk_size > 0, "C34:accepted_snapshot_limits_zero");
+    }
+    std::mem::forget(r);
+    std::mem::forget(s);
+}
+
+/// C34: the composition -- `RaftConfig::validate()` (public entry) really enforces every section's constraints.
+/// Numeric fields of the election / read-consistency / replication / batching / snapshot sections are symbolic at
+/// full width, everything else is the default.
+#[kani::proof]
+#[kani::stub(std_catch_unwind, cu)]
+#[kani::stub(tracing::level_filters::LevelFilter::current, stub_level_off)]
+#[kani::stub(tracing::callsite::DefaultCallsite::register, stub_callsite_register)]
+#[kani::stub(std::fmt::format, stub_format)]
+#[kani::stub(std::path::Path::exists, stub_path_exists)]
+#[kani::stub(std::fs::write, stub_fs_write)]
+#[kani::stub(std::fs::remove_file, stub_fs_remove_file)]
+#[kani::stub(std::fs::create_dir_all, stub_fs_create_dir_all)]
+#[kani::unwind(2)]
+pub fn c34_raft_config_composition() {
+    let mut c = RaftConfig::default();
+    c.election.election_timeout_min = kani::any();
+    c.election.election_timeout_max = kani::any();
+    c.read_consistency.lease_duration_ms = kani::any();
+    c.read_consistency.network_rtt_p99_ms = kani::any();
+    c.replication.rpc_append_entries_clock_in_ms = kani::any();
+    c.replication.append_entries_max_entries_per_replication = kani::any();
+    c.batching.max_batch_size = kani::any();
+    c.batching.max_merge_entries = kani::any();
+    c.snapshot.retained_log_entries = kani::any();
+    let r = c.validate();
+    kani::cover!(r.is_ok(), "configuration accepted");
+    kani::cover!(r.is_err() && c.election.election_timeout_min < c.election.election_timeout_max && c.replication.rpc_append_entries_clock_in_ms > 0
+        && c.replication.append_entries_max_entries_per_replication > 0 && c.batching.max_batch_size > 0 && c.batching.max_merge_entries > 0
+        && c.snapshot.retained_log_entries >= 1, "rejected only because of the lease window");
+    if r.is_ok() {
+        assert!(c.election.election_timeout_min < c.election.election_timeout_max, "C34:accepted_election_min_below_max");
+        assert!(c.read_consistency.lease_duration_ms > 0, "C34:accepted_lease_nonzero");
+        let lhs = c.read_consistency.lease_duration_ms as u128 + (c.read_consistency.network_rtt_p99_ms / 2) as u128;
+        assert!(lhs < c.election.election_timeout_min as u128, "C34:accepted_lease_plus_half_rtt_below_election_min");
+        assert!(c.replication.rpc_append_entries_clock_in_ms > 0, "C34:accepted_heartbeat_nonzero");
+        assert!(c.replication.append_entries_max_entries_per_replication > 0, "C34:accepted_per_request_cap_nonzero");
+        assert!(c.batching.max_batch_size > 0 && c.batching.max_merge_entries > 0, "C34:accepted_batch_limits_nonzero");
+        assert!(c.snapshot.retained_log_entries >= 1, "C34:accepted_snapshot_config_retains_no_log_entry");
+    }
+    std::mem::forget(r);
+    std::mem::forget(c);
+}
